@@ -26,6 +26,10 @@ def unhx(w):
     return bytes(int(x, 16) for x in w.split("."))
 
 
+# one scratch directory per check process: checks of different properties may run at the same time and each removes its own
+BOXDIR = os.path.join(common.CACHE, "box", "p%d" % os.getpid())
+
+
 def snapshot(root):
     """{relpath: ('d',) | ('f', size, mtime_ns, sha1)}; symlinks are not followed"""
     out = {}
@@ -58,7 +62,7 @@ class Real:
 
 def run_real(exe, template, argv, stdin=b"", env=None, keep=False, pre=None, wrapper=(), timeout=60, tmpdir=None):
     """copy `template` to a fresh directory, run `exe argv` there, snapshot before/after"""
-    tmpdir = tmpdir or os.path.join(common.CACHE, "box")
+    tmpdir = tmpdir or BOXDIR
     os.makedirs(tmpdir, exist_ok=True)
     root = tempfile.mkdtemp(prefix="b-", dir=tmpdir)
     work = os.path.join(root, "w")
